@@ -425,6 +425,9 @@ func (s *StoreSession) roCheck(from int) (out []Mismatch) {
 	}
 	s.flog.mu.Lock()
 	for _, op := range s.flog.Ops[from:] {
+		if op.Err != "" {
+			continue // an attempt that the read-only descriptor refused changed nothing
+		}
 		switch op.Op {
 		case "writeAt", "truncate", "create": // (a Sync alone changes nothing: SnapshotRevert on a read-only store syncs, then fails on its write)
 			out = append(out, Mismatch{What: "readonly.fileop", Got: fmt.Sprintf("%s %s", op.Op, filepath.Base(op.Name)), Want: "no mutating file operation"})
